@@ -31,7 +31,10 @@ C05_NoHang == J => ~T.hung
 \* "is not handed to the application handler a second time" within the lifetime
 C05_Once == J => \A a, b \in 1..N :
               (a < b /\ IsRun(b) /\ Lg[a].q = Lg[b].q /\ Epoch(a) = Epoch(b) /\ ~Elapsed(a))
-                 => ~((Typ(Lg[a].q) = "CON" /\ IsRun(a)) \/ (IsReply(a) /\ Lg[a].ran))
+                 => ~(\/ (Typ(Lg[a].q) = "CON" /\ IsRun(a)) \/ (IsReply(a) /\ Lg[a].ran)
+                      \* "even when the copies are processed concurrently": a run whose copy went on to produce a reply (the reply may
+                      \* be logged after the second run started - copies of one message ID are processed one after the other)
+                      \/ (IsRun(a) /\ \E k \in 1..N : IsReply(k) /\ Lg[k].ran /\ Lg[k].q = Lg[a].q /\ Lg[k].copy = Lg[a].copy /\ Epoch(k) = Epoch(a)))
 \* "each duplicate is instead answered with a reply of the same code, token, options and payload as the first one
 \*  (a bare acknowledgement if that is what the first copy got), matched to the duplicate's message ID"
 \* The reply that the processing of the first copy produced goes on the wire after the message-ID lock is released, so a
